@@ -59,7 +59,6 @@ func NewChunker(fn string) (*Chunker, error) {
 	defer byLines.Close()
 
 	lineManifest := make([]lineAddr, 0)
-	curr := int64(0)
 	for {
 		line, err := byLines.Read()
 		if err != nil {
@@ -68,9 +67,11 @@ func NewChunker(fn string) (*Chunker, error) {
 			}
 			return nil, err
 		}
-		end := curr + int64(len(line)) + 1 // +1 for '\n'
-		lineManifest = append(lineManifest, lineAddr{curr, end})
-		curr = end
+		// skipped empty lines also advance the file offset, so address the line
+		// backwards from the reader's offset.
+		end := byLines.Offset()
+		start := end - int64(len(line)) - 1 // +1 for '\n'
+		lineManifest = append(lineManifest, lineAddr{start, end})
 	}
 }
 
